@@ -1,22 +1,35 @@
 #!/bin/sh
 # Confirm a seeded change: existing tests pass with it, the demo fails with it and passes without it.
 # usage: verify_seed.sh <seed dir>   (uses a scratch worktree under /tmp, removed afterwards)
+# The demonstration is either demo.rs (an integration test; placed into emulator-2a/tests when
+# meta.json's demo_location names that directory, otherwise into emulator-2a-lib/tests) or
+# demo.diff (a patch adding #[cfg(test)] tests to the binary crate).
 set -u
 D=$(cd "$1" && pwd)
 W=/tmp/wt_verify_$$
 export CARGO_NET_OFFLINE=true
 git -C /repo worktree add -q "$W" HEAD || exit 2
-mkdir -p "$W/emulator-2a-lib/tests"
-cp "$D/demo.rs" "$W/emulator-2a-lib/tests/demo.rs"
 cd "$W"
-echo "== baseline: demo must pass"
-cargo test --offline -p emulator-2a-lib --test demo > "$D/verify_base_demo.log" 2>&1; B=$?
+if [ -f "$D/demo.diff" ]; then
+  CRATE=emulator-2a
+  git apply "$D/demo.diff" || { echo "demo.diff does not apply"; cd /; git -C /repo worktree remove --force "$W"; exit 2; }
+  DEMO="cargo test --offline -p emulator-2a"
+  undo_demo() { git apply -R "$D/demo.diff"; }
+else
+  if grep -q "emulator-2a/tests" "$D/meta.json" 2>/dev/null; then CRATE=emulator-2a; else CRATE=emulator-2a-lib; fi
+  mkdir -p "$W/$CRATE/tests"
+  cp "$D/demo.rs" "$W/$CRATE/tests/demo.rs"
+  DEMO="cargo test --offline -p $CRATE --test demo"
+  undo_demo() { rm -f "$W/$CRATE/tests/demo.rs"; }
+fi
+echo "== baseline: demo must pass ($DEMO)"
+$DEMO > "$D/verify_base_demo.log" 2>&1; B=$?
 echo "   rc=$B"
 git apply "$D/patch.diff" || { echo "patch does not apply"; cd /; git -C /repo worktree remove --force "$W"; exit 2; }
 echo "== with change: demo must fail"
-cargo test --offline -p emulator-2a-lib --test demo > "$D/verify_seed_demo.log" 2>&1; S=$?
+$DEMO > "$D/verify_seed_demo.log" 2>&1; S=$?
 echo "   rc=$S"
-rm -f emulator-2a-lib/tests/demo.rs
+undo_demo
 echo "== with change: existing suite must pass"
 cargo test --workspace --no-fail-fast --offline > "$D/verify_seed_suite.log" 2>&1; T=$?
 grep -E "^test result" "$D/verify_seed_suite.log" | head -5
